@@ -1,3 +1,3 @@
 #!/bin/bash
 # kills the sweep driver script and the check it is running
-for p in $(pgrep -f "sweep[0-9]/run.s[h]"); do kill -9 $p; done
+for p in $(pgrep -f "sweep[0-9]/run[0-9]*.s[h]"); do kill -9 $p; done
